@@ -11,7 +11,7 @@
     so this file stops compiling when the source uses the inverted test, and
     [C03_refuted_when_false] shows that the statement is then indeed false.
 
-    "For every history": [reach current seed pass st] = [st] is reached from
+    "For every history": [reach sl cg seed pass st] = [st] is reached from
     waddrmgr.Create(seed) by any sequence of the modelled operations
     (restart, unlock/lock with any passphrase, passphrase change, new scope,
     new account, imported xpub account, next addresses, extend, lookup, mark
@@ -23,18 +23,31 @@
 From Verif Require Import Base.Prelude Addr.Keys Addr.Mgr Addr.MgrProofs Generated.AddrFacts.
 Local Open Scope N_scope.
 
-Definition current : bool := extend_derives_private_when_unlocked.
+Definition sl : bool := new_scope_stores_last_account.
+Definition cg : bool := derive_cache_checks_account_key.
+Definition current : facts := mkFacts extend_derives_private_when_unlocked sl cg.
+
+(** The source fact the theorems depend on (Generated/AddrFacts.v, regenerated
+    from waddrmgr/scoped_manager.go on every run): extendAddresses uses the
+    same watch-only test as nextAddresses.  (The other regenerated facts may
+    have either value: [sl] = whether NewScopedKeyManager stores the new
+    scope's lastAccount only decides which histories are admissible, see [adm];
+    [cg] = whether DeriveFromKeyPathCache looks at the account private key
+    before deriving privately only decides between an error and a nil
+    dereference for watch-only accounts.) *)
+Lemma source_fact : current = mkFacts true sl cg.
+Proof. exact eq_refl. Qed.
 
 (** Accounts created from the seed hold the key m/purpose'/coin'/account'
     (as xpub and, encrypted, as xprv); imported accounts hold the imported
     xpub and no private key. *)
 Theorem C03_account_keys : forall seed pass st s a row,
-  reach current seed pass st -> aget sa_dec (d_accts (st_disk st)) (s, a) = Some row ->
+  reach sl cg seed pass st -> aget sa_dec (d_accts (st_disk st)) (s, a) = Some row ->
   match ar_kind row with
   | ADefault => ar_pub row = acct_key seed (fst s) (snd s) a /\ ar_priv row = Some (ar_pub row) /\ ar_schema row = None
   | AWatchOnly => (exists x cn, ar_pub row = xpub_key x cn) /\ ar_priv row = None
   end.
-Proof. exact (account_keys current). Qed.
+Proof. exact (account_keys sl cg). Qed.
 Print Assumptions C03_account_keys.
 
 (** NextExternalAddresses / NextInternalAddresses(scope s, account a, n):
@@ -46,7 +59,7 @@ Print Assumptions C03_account_keys.
     path (internal account, account child number, branch, index) and the
     internal flag are the true ones. *)
 Theorem C03_next_addresses : forall seed pass st s a internal n st' rs row sch,
-  reach current seed pass st -> step current st (ONext s a internal n) = (st', OutAddrs rs) ->
+  reach sl cg seed pass st -> step current st (ONext s a internal n) = (st', OutAddrs rs) ->
   acct_of st' s a row sch ->
   let branch := if internal then internal_branch else external_branch in
   let next := disk_next (st_disk st) s a internal in
@@ -55,7 +68,7 @@ Theorem C03_next_addresses : forall seed pass st s a internal n st' rs row sch,
                                   dp_acct (r_path i) = child_num (ar_pub row) /\
                                   r_pub i = ckd_pub (ckd_pub (Pub (ar_pub row)) branch) idx)
           rs (index_range next (N.to_nat n)).
-Proof. exact (next_addresses_correct current). Qed.
+Proof. rewrite source_fact. exact (next_addresses_correct sl cg). Qed.
 Print Assumptions C03_next_addresses.
 
 (** Indices are issued consecutively without repetition: the stored count of
@@ -63,7 +76,7 @@ Print Assumptions C03_next_addresses.
     exactly those indices) and by Extend (raised to last+1) and by nothing
     else - not by lookups, locking, restart, imports or account creation. *)
 Theorem C03_indices_only_move_by_issuing : forall seed pass st o s a i row,
-  reach current seed pass st -> adm st o = true -> aget sa_dec (d_accts (st_disk st)) (s, a) = Some row ->
+  reach sl cg seed pass st -> adm st o = true -> aget sa_dec (d_accts (st_disk st)) (s, a) = Some row ->
   disk_next (st_disk (fst (step current st o))) s a i =
   match o, snd (step current st o) with
   | ONext s' a' i' n, OutAddrs _ =>
@@ -73,71 +86,71 @@ Theorem C03_indices_only_move_by_issuing : forall seed pass st o s a i row,
     else disk_next (st_disk st) s a i
   | _, _ => disk_next (st_disk st) s a i
   end.
-Proof. exact (index_frame current). Qed.
+Proof. rewrite source_fact. exact (index_frame sl cg). Qed.
 Print Assumptions C03_indices_only_move_by_issuing.
 
 (** Manager.Address (lookup later, after extend, after restart): the managed
     address found stands for the queried address, and if it is a chain address
     it is the child of its account key at its reported, true path. *)
 Theorem C03_lookup : forall seed pass st ad st' r,
-  reach current seed pass st -> step current st (OLookup ad) = (st', OutAddrs [r]) ->
+  reach sl cg seed pass st -> step current st (OLookup ad) = (st', OutAddrs [r]) ->
   rinfo_akey r = addr_key ad /\
   forall i row sch, r = RKey i -> r_imported i = false -> acct_of st' (r_scope i) (r_iacct i) row sch ->
     chain_info_ok row sch (r_scope i) (r_iacct i) (dp_branch (r_path i)) (dp_index (r_path i)) i /\
     dp_acct (r_path i) = child_num (ar_pub row).
-Proof. exact (lookup_correct current). Qed.
+Proof. rewrite source_fact. exact (lookup_correct sl cg). Qed.
 Print Assumptions C03_lookup.
 
 (** DeriveFromKeyPath. *)
 Theorem C03_derive_from_path : forall seed pass st s p st' r row sch,
-  reach current seed pass st -> step current st (ODerive s p) = (st', OutAddrs [r]) ->
+  reach sl cg seed pass st -> step current st (ODerive s p) = (st', OutAddrs [r]) ->
   acct_of st' s (dp_iacct p) row sch ->
   exists i, r = RKey i /\ r_path i = p /\ chain_info_ok row sch s (dp_iacct p) (dp_branch p) (dp_index p) i.
-Proof. exact (derive_correct current). Qed.
+Proof. rewrite source_fact. exact (derive_correct sl cg). Qed.
 Print Assumptions C03_derive_from_path.
 
 (** A wallet re-created from the same seed has the same key for every
     seed-derived account, hence (by the theorems above) issues the same
     addresses. *)
 Theorem C03_recreated_wallet_same_keys : forall seed pass1 pass2 st1 st2 s a row1 row2,
-  reach current seed pass1 st1 -> reach current seed pass2 st2 ->
+  reach sl cg seed pass1 st1 -> reach sl cg seed pass2 st2 ->
   aget sa_dec (d_accts (st_disk st1)) (s, a) = Some row1 -> aget sa_dec (d_accts (st_disk st2)) (s, a) = Some row2 ->
   ar_kind row1 = ADefault -> ar_kind row2 = ADefault ->
   ar_pub row1 = ar_pub row2 /\ row_fmt (mkSchema P2PKH P2PKH) row1 = row_fmt (mkSchema P2PKH P2PKH) row2.
-Proof. exact (same_seed_same_keys current current). Qed.
+Proof. exact (same_seed_same_keys sl cg sl cg). Qed.
 Print Assumptions C03_recreated_wallet_same_keys.
 
 (** A private key that is returned is the key of the returned public key. *)
 Theorem C03_private_key_never_wrong : forall seed pass st o st' rs i k,
-  reach current seed pass st -> adm st o = true -> step current st o = (st', OutAddrs rs) -> In (RKey i) rs ->
+  reach sl cg seed pass st -> adm st o = true -> step current st o = (st', OutAddrs rs) -> In (RKey i) rs ->
   (match o with ONext _ _ _ _ | OLookup _ | ODerive _ _ | OImportKey _ _ => True | _ => False end) ->
   r_priv i = POk k -> pub_of_priv k = r_pub i.
-Proof. exact (priv_never_wrong current). Qed.
+Proof. rewrite source_fact. exact (priv_never_wrong sl cg). Qed.
 Print Assumptions C03_private_key_never_wrong.
 
 (** Imported keys and scripts are returned unchanged, at import and later. *)
 Theorem C03_imported_key_unchanged : forall seed pass st s k st' rs,
-  reach current seed pass st -> step current st (OImportKey s k) = (st', OutAddrs rs) ->
+  reach sl cg seed pass st -> step current st (OImportKey s k) = (st', OutAddrs rs) ->
   exists i, rs = [RKey i] /\ r_imported i = true /\ r_pub i = Pub (imp_key k) /\ r_priv i = POk (Priv (imp_key k)).
-Proof. exact (fun seed pass => imported_key_unchanged seed pass current). Qed.
+Proof. rewrite source_fact. exact (imported_key_unchanged sl cg). Qed.
 Print Assumptions C03_imported_key_unchanged.
 
 Theorem C03_imported_key_later : forall seed pass st ad st' i,
-  reach current seed pass st -> step current st (OLookup ad) = (st', OutAddrs [RKey i]) -> r_imported i = true ->
+  reach sl cg seed pass st -> step current st (OLookup ad) = (st', OutAddrs [RKey i]) -> r_imported i = true ->
   exists k, r_pub i = Pub (imp_key k) /\ addr_key (AKey (r_fmt i) (Pub (imp_key k))) = addr_key ad /\
             (m_locked (st_mem st) = false -> r_priv i = POk (Priv (imp_key k))).
-Proof. exact (fun seed pass => imported_key_later seed pass current). Qed.
+Proof. rewrite source_fact. exact (imported_key_later sl cg). Qed.
 Print Assumptions C03_imported_key_later.
 
 Theorem C03_imported_script_unchanged : forall seed pass st s sc st' rs h oid sa,
-  reach current seed pass st ->
+  reach sl cg seed pass st ->
   (step current st (OImportScript s sc) = (st', OutAddrs rs) -> rs = [RScr s sc (SOk sc)]) /\
   (nth_error (m_handles (st_mem st)) h = Some oid -> nth_error (m_heap (st_mem st)) oid = Some (MScript sa) ->
    m_locked (st_mem st) = false -> snd (step current st (OScript h)) = OutScript (sa_script sa)).
 Proof.
-  intros seed pass st s sc st' rs h oid sa R. split.
-  - exact (imported_script_unchanged seed pass current st s sc st' rs R).
-  - exact (script_later seed pass current st h oid sa R).
+  rewrite source_fact. intros seed pass st s sc st' rs h oid sa R. split.
+  - exact (imported_script_unchanged sl cg seed pass st s sc st' rs R).
+  - exact (script_later sl cg seed pass st h oid sa R).
 Qed.
 Print Assumptions C03_imported_script_unchanged.
 
@@ -149,8 +162,8 @@ Print Assumptions C03_imported_script_unchanged.
     private key. *)
 Theorem C03_refuted_when_false :
   exists (h : list op) (i : ainfo),
-    let '(st, outs) := run false (init 7 1) h in
-    run_adm false (init 7 1) h = true /\ m_locked (st_mem st) = false /\
+    let '(st, outs) := run (mkFacts false false false) (init 7 1) h in
+    run_adm (mkFacts false false false) (init 7 1) h = true /\ m_locked (st_mem st) = false /\
     last outs OutOk = OutAddrs [RKey i] /\ r_imported i = false /\
     r_pub i = Pub (addr_skey (acct_key 7 84 0 0) 0 0) /\ r_priv i = PErr EWatching.
 Proof.
@@ -161,7 +174,7 @@ Print Assumptions C03_refuted_when_false.
 
 (** The same history on the instance [true]: the key is there. *)
 Example extend_unlocked_when_true :
-  exists i, last (snd (run true (init 7 1)
+  exists i, last (snd (run (mkFacts true false false) (init 7 1)
         [OUnlock 1; OExtend (84, 0) 0 false 2; OLookup (AKey P2WKH (Pub (addr_skey (acct_key 7 84 0 0) 0 0)))])) OutOk
       = OutAddrs [RKey i] /\ r_priv i = POk (Priv (addr_skey (acct_key 7 84 0 0) 0 0)).
 Proof. eexists. vm_compute. split; reflexivity. Qed.
@@ -173,9 +186,13 @@ Proof. eexists. vm_compute. split; reflexivity. Qed.
 Example custom_scope_account_zero_reused :
   let h := [OUnlock 1; ONewScope (1017, 0) (mkSchema P2WKH P2WKH); ONext (1017, 0) 0 false 2;
             ONewAccount (1017, 0) 11; OOpen; OProps (1017, 0) 0] in
-  run_adm true (init 7 1) h = false /\
-  nth 3 (snd (run true (init 7 1) h)) OutOk = OutAcct 0 /\
-  nth 5 (snd (run true (init 7 1) h)) OutOk = OutProps 0 0.
+  run_adm (mkFacts true false false) (init 7 1) h = false /\
+  nth 3 (snd (run (mkFacts true false false) (init 7 1) h)) OutOk = OutAcct 0 /\
+  nth 5 (snd (run (mkFacts true false false) (init 7 1) h)) OutOk = OutProps 0 0 /\
+  (* when NewScopedKeyManager stores lastAccount: account 1, counts kept *)
+  run_adm (mkFacts true true false) (init 7 1) h = true /\
+  nth 3 (snd (run (mkFacts true true false) (init 7 1) h)) OutOk = OutAcct 1 /\
+  nth 5 (snd (run (mkFacts true true false) (init 7 1) h)) OutOk = OutProps 2 0.
 Proof. vm_compute. repeat split. Qed.
 
 (** Observation (DESIGN S14): the address objects made by extendAddresses report
@@ -185,8 +202,8 @@ Proof. vm_compute. repeat split. Qed.
 Example extend_reports_no_fingerprint :
   let a1 := AKey P2WKH (Pub (addr_skey (xpub_key 3 2147483651) 0 1)) in
   let h := [OImportXpub (84, 0) 11 3 2147483651 77 None; OExtend (84, 0) 1 false 1; OLookup a1; OOpen; OLookup a1] in
-  exists i j, nth 2 (snd (run true (init 7 1) h)) OutOk = OutAddrs [RKey i] /\
-              nth 4 (snd (run true (init 7 1) h)) OutOk = OutAddrs [RKey j] /\
+  exists i j, nth 2 (snd (run (mkFacts true false false) (init 7 1) h)) OutOk = OutAddrs [RKey i] /\
+              nth 4 (snd (run (mkFacts true false false) (init 7 1) h)) OutOk = OutAddrs [RKey j] /\
               r_path i = mkPath 1 2147483651 0 1 0 /\ r_path j = mkPath 1 2147483651 0 1 77.
 Proof. do 2 eexists. vm_compute. repeat split. Qed.
 
@@ -200,15 +217,10 @@ Example C03_nonvacuous :
             OImportScript (44, 0) 6; OChangePass 1 2; OLock; ODerive (84, 0) (mkPath 0 2147483648 1 5 0);
             OMarkUsed (AKey P2WKH (Pub (addr_skey (acct_key 7 84 0 0) 0 1))); OOpen; OUnlock 2;
             OLookup (AKey P2WKH (Pub (addr_skey (acct_key 7 84 0 0) 0 1))); OPriv 0; ODeriveCache (84, 0) (mkPath 0 2147483648 0 1 0)] in
-  run_adm true (init 7 1) h = true /\
-  nth 17 (snd (run true (init 7 1) h)) OutOk = OutKey (Priv (addr_skey (acct_key 7 84 0 0) 0 1)).
+  run_adm (mkFacts true false false) (init 7 1) h = true /\
+  nth 17 (snd (run (mkFacts true false false) (init 7 1) h)) OutOk = OutKey (Priv (addr_skey (acct_key 7 84 0 0) 0 1)).
 Proof. vm_compute. split; reflexivity. Qed.
 
-(* ------------------------------------------------------------------------- *)
-(** The source fact the remaining theorems depend on (Generated/AddrFacts.v,
-    regenerated from waddrmgr/scoped_manager.go on every run). *)
-Lemma source_fact : extend_derives_private_when_unlocked = true.
-Proof. exact eq_refl. Qed.
 
 (** Whenever the manager is unlocked, PrivKey() of ANY address object the
     caller holds - just issued, looked up later, created while locked and
@@ -216,30 +228,30 @@ Proof. exact eq_refl. Qed.
     account with a private key, or is an imported key, returns exactly the
     private key of the object's public key. *)
 Theorem C03_private_key_available : forall seed pass st h ma,
-  reach current seed pass st -> handle_obj st h ma -> m_locked (st_mem st) = false ->
+  reach sl cg seed pass st -> handle_obj st h ma -> m_locked (st_mem st) = false ->
   (ma_imported ma = false ->
    exists row, aget sa_dec (d_accts (st_disk st)) (ma_scope ma, dp_iacct (ma_path ma)) = Some row /\
                ar_priv row <> None) ->
   snd (step current st (OPriv h)) = OutKey (Priv (skey_of_pub (ma_pub ma))).
-Proof. unfold current. rewrite source_fact. exact priv_key_available. Qed.
+Proof. rewrite source_fact. exact (priv_key_available sl cg). Qed.
 Print Assumptions C03_private_key_available.
 
 (** ... and every such object is what the address theorems say: *)
 Theorem C03_held_address_is_account_child : forall seed pass st h ma,
-  reach current seed pass st -> handle_obj st h ma ->
+  reach sl cg seed pass st -> handle_obj st h ma ->
   if ma_imported ma then exists k, ma_pub ma = Pub (imp_key k)
   else exists row sch, acct_of st (ma_scope ma) (dp_iacct (ma_path ma)) row sch /\
          ma_pub ma = Pub (path_skey (ar_pub row) (dp_branch (ma_path ma)) (dp_index (ma_path ma))) /\
          ma_fmt ma = row_fmt sch row (dp_branch (ma_path ma)).
-Proof. exact (fun seed pass => handle_obj_ok seed pass current). Qed.
+Proof. exact (handle_obj_ok sl cg). Qed.
 Print Assumptions C03_held_address_is_account_child.
 
 (** The addresses an operation hands out while unlocked already carry their key. *)
 Theorem C03_reported_private_key_available : forall seed pass st o st' rs i row,
-  reach current seed pass st -> adm st o = true -> step current st o = (st', OutAddrs rs) -> In (RKey i) rs ->
+  reach sl cg seed pass st -> adm st o = true -> step current st o = (st', OutAddrs rs) -> In (RKey i) rs ->
   (match o with ONext _ _ _ _ | OLookup _ | ODerive _ _ => True | _ => False end) ->
   m_locked (st_mem st) = false -> r_imported i = false ->
   aget sa_dec (d_accts (st_disk st')) (r_scope i, r_iacct i) = Some row -> ar_priv row <> None ->
   r_priv i = POk (Priv (skey_of_pub (r_pub i))).
-Proof. unfold current. rewrite source_fact. exact reported_priv_available. Qed.
+Proof. rewrite source_fact. exact (reported_priv_available sl cg). Qed.
 Print Assumptions C03_reported_private_key_available.
